@@ -127,8 +127,11 @@ func TestC13(t *testing.T) {
 	})
 }
 
-// FuzzC13Unpack: any byte string either is refused (panic) or unpacks to a
-// value whose packing unpacks to an equal value. Thorough tier only.
+// FuzzC13Unpack (thorough tier only): coverage-guided search over raw bytes.
+// The property speaks about values, so the oracle only judges inputs that are
+// canonical encodings (Pack(Unpack(b)) == b): for those, unpacking the repacked
+// bytes must give an equal value and the same bytes again. Anything else
+// (refused input, non-canonical bytes that no Pack produces) is not judged.
 func FuzzC13Unpack(f *testing.F) {
 	for _, v := range []core.Value{core.True, core.IntVal(1), core.IntVal(-70000), core.SuStr("hello"),
 		core.NewDate(2020, 2, 29, 1, 2, 3, 4), core.SuObjectOf(core.IntVal(1), core.SuStr("x"))} {
@@ -138,36 +141,44 @@ func FuzzC13Unpack(f *testing.F) {
 	f.Add([]byte{core.PackMinus, 0x7f, 0xfe})
 	f.Fuzz(func(t *testing.T, b []byte) {
 		var v core.Value
+		var p string
+		ok := false
 		func() {
 			defer func() { recover() }()
 			v = core.Unpack(string(b))
 			_ = v.String() // may be lazy
+			p = core.Pack(v.(core.Packable))
+			ok = true
 		}()
-		if v == nil {
+		if !ok || p != string(b) {
 			return
-		}
-		pk, ok := v.(core.Packable)
-		if !ok {
-			return
-		}
-		var p string
-		func() {
-			defer func() {
-				if e := recover(); e != nil {
-					p = "\xff"
-				}
-			}()
-			p = core.Pack(pk)
-		}()
-		if p == "\xff" {
-			return // refused (e.g. nesting)
 		}
 		u := core.Unpack(p)
 		if !deepEq(u, v) {
-			t.Fatalf("Unpack(Pack(Unpack(%x))) = %v, want %v", b, u, v)
+			t.Fatalf("canonical %x unpacks to %v and again to %v", b, v, u)
 		}
 		if p2 := core.Pack(u.(core.Packable)); p2 != p {
-			t.Fatalf("repacking not a fixpoint: %x -> %x -> %x", b, p, p2)
+			t.Fatalf("repacking not a fixpoint: %x -> %x", p, p2)
 		}
 	})
+}
+
+// FuzzC13Values (thorough tier only): the same value-level properties as
+// TestC13, driven by Go's coverage-guided fuzzer through rapid.MakeFuzz.
+func FuzzC13Values(f *testing.F) {
+	f.Fuzz(rapid.MakeFuzz(func(t *rapid.T) {
+		a, b := gen.ScalarMV().Draw(t, "a"), gen.ScalarMV().Draw(t, "b")
+		pa, pb := packOf(a.V), packOf(b.V)
+		if !deepEq(core.Unpack(pa), a.V) {
+			t.Fatalf("round trip of %v", a)
+		}
+		want := gen.CmpModel(a, b)
+		if (want == 0) != (pa == pb) {
+			t.Fatalf("canonical form: %v (%x) vs %v (%x) model %d", a, pa, b, pb, want)
+		}
+		emptyStr := (a.Kind == gen.KStr && a.S == "") || (b.Kind == gen.KStr && b.S == "")
+		if !emptyStr && strings.Compare(pa, pb) != want {
+			t.Fatalf("packed order %d != value order %d for %v (%x) vs %v (%x)", strings.Compare(pa, pb), want, a, pa, b, pb)
+		}
+	}))
 }
